@@ -448,7 +448,9 @@ def py_expr(e):
         if ty == "Float":
             return f"({v})"
         if ty == "Str":
-            return '"' + v + '"'
+            # Erg defines the `\\t` escape as four spaces ("tab is invalid, so changed into 4 whitespace", lex.rs); the other
+            # escapes of the pool mean the same in both languages
+            return '"' + v.replace("\\t", "    ") + '"'
         if ty == "Bool":
             return "True" if v else "False"
     if k == "var":
@@ -518,3 +520,59 @@ def py_stmts(stmts, ind=0):
 
 def to_python(prog):
     return "\n".join(py_stmts(prog)) + "\n"
+
+
+# ---------------------------------------------------------------------------------------------- tree features
+
+def tree_features(prog):
+    """structural features computed from the finished tree (used to attribute mismatches to recorded findings precisely):
+       enum-minus : a `-` whose left operand is an if-expression over Nat branches, or a variable defined by one
+                    (static type: an enum of naturals such as {2, 3})"""
+    feats = set()
+    enum_vars = set()
+
+    def is_enum_nat(e):
+        if e[0] == "if" and e[4] == "Nat":
+            return True
+        if e[0] == "var" and e[1] in enum_vars:
+            return True
+        return False
+
+    def walk(e):
+        if not isinstance(e, tuple):
+            return
+        if e[0] == "bin" and e[1] == "-" and is_enum_nat(e[2]):
+            feats.add("enum-minus")
+        for x in e[1:]:
+            if isinstance(x, tuple):
+                walk(x)
+            elif isinstance(x, list):
+                for y in x:
+                    walk(y)
+
+    def stmts(ss):
+        for s in ss:
+            if s[0] == "def":
+                if s[3][0] == "if" and s[2] == "Nat" and not s[4]:
+                    enum_vars.add(s[1])
+                walk(s[3])
+            elif s[0] == "print":
+                for x in s[1]:
+                    walk(x)
+            elif s[0] == "func":
+                stmts(s[4]); walk(s[5])
+            elif s[0] == "lambda":
+                walk(s[4])
+            elif s[0] in ("for",):
+                stmts(s[4])
+            elif s[0] == "while":
+                stmts(s[3])
+            elif s[0] == "ifstmt":
+                walk(s[1]); stmts(s[2]); stmts(s[3])
+            elif s[0] == "tupdef":
+                for x in s[2]:
+                    walk(x)
+            elif s[0] == "exprstmt":
+                walk(s[1])
+    stmts(prog)
+    return feats
